@@ -56,7 +56,7 @@ def tlc_generate(shapes: List[Shape], plans: List[List[str]], max_ver: int, stor
                  fail_classes: List[str] = [], log_ops: bool = False) -> Tuple[common.TLCResult, List[Dict[str, Any]]]:
     """Histories of the bounded model, one per complete plan, with expected observables.
     Shapes are distributed over several single-worker TLC processes."""
-    n = max(1, min(common.NCPU // 2, len(shapes)))
+    n = max(1, min(common.NCPU, len(shapes)))
     groups: List[List[int]] = [[] for _ in range(n)]
     for i in range(len(shapes)):
         groups[i % n].append(i + 1)
